@@ -163,7 +163,8 @@ def run(ctx):
     n = 2 if ctx.tier == "quick" else 3
     recs = pool.collect(ctx, [dict(gen="g2", count=70 * k, modes=["plain"], nexec=n, reference=True, opts={"order": "perm"}),
                               dict(gen="g2", count=30 * k, modes=["plain"], nexec=n, reference=True, opts={"order": "levelsorted"}),
-                              dict(gen="g2", count=20 * k, modes=["plain"], nexec=n, reference=True, opts={"order": "none"})])
+                              dict(gen="g2", count=20 * k, modes=["plain"], nexec=n, reference=True, opts={"order": "none"}),
+                              dict(gen="g2deep", count=6 * k, modes=["plain"], nexec=n, reference=True)])
     check_records(ctx, recs)
     check_model(ctx, recs)
 
